@@ -142,6 +142,8 @@ def hp_cases(tier, seed, salt, lmax_quick=2, lmax_thorough=4, n_quick=6, n_thoro
     """block cases of the high-precision replay stream ("hp": 1): small l and K, M <= 2 (object arithmetic is ~1000 x
     slower than double); see hpnum.gen_pairs for the geometries"""
     import hpnum
+    if os.environ.get("VERIF_NO_HP"):        # timing comparisons only
+        return []
     rng = random.Random(1000003 * seed + 7919 * salt + 13)
     quick = tier == "quick"
     out = []
